@@ -10,8 +10,8 @@ META = {
     "level": "model_checking",
     "level_text": "StormFfi.tla models the three handle tables, the id counter, the four Mutexes (owner per lock), per-thread program "
                   "counters and last error, with one action per critical section of lib.rs. Stage A: TLC checks the INTENDED machine "
-                  "(Dev = {}) exhaustively in small scope (2 threads x 2 calls and 1 thread x 3 calls over the API, 3 threads x 1 call in "
-                  "thorough; handles range over NULL / valid / closed / other-table / never-issued): deadlock freedom (TLC deadlock check), "
+                  "(Dev = {}) exhaustively in small scope (quick: 2 threads x 2 calls over the lock-relevant functions and 1 thread x 2 calls over all 23 call kinds; "
+                  "thorough adds 1 x 3, 3 threads x 1 call, and 2 x 2 over all functions; handles range over NULL / valid / closed / other-table / never-issued): deadlock freedom (TLC deadlock check), "
                   "no wait cycle, CloseInvalidatesOwn, cursor in 0..len, unique ids; and checks that each named deviation of the code as "
                   "written (CloseSplit, NoFindPurge, FindLate, FindNextNested, VerifyRelock, ProbeForever, HasFileStale) yields a "
                   "counterexample. Stage B: TLC emits every single call x handle class x buffer/offset class after a fixed setup history, "
@@ -182,7 +182,8 @@ def run(ctx, cases_override=None):
     fut_build = ex.submit(ctx.build, "c19")
     mcs = [("MC_StormFfi", 4, 800)] + ([("MC_StormFfi_seq", 4, 600)] if True else [])
     if ctx.thorough:
-        mcs += [("MC_StormFfi_seq3", 4, 900), ("MC_StormFfi_t3", 4, 1500), ("MC_StormFfi_full", 4, 1700), ("MC_StormFfi_t3full", 4, 1700)]
+        mcs += [("MC_StormFfi_seq3", 4, 900), ("MC_StormFfi_t3", 4, 1500), ("MC_StormFfi_full", 6, 1700)]
+        # MC_StormFfi_t3full.cfg (3 threads x 1 call, all functions; 2.28 M states, 8 min on an idle box) is kept for manual runs
     fut_mc = [ex.submit(ctx.mc, "MC_StormFfi", cfg, workers=w, timeout=to,
                         allow_uncovered=AS_CODED_ONLY + (LIGHT if cfg in ("MC_StormFfi", "MC_StormFfi_t3") else ()))
               for cfg, w, to in mcs]
